@@ -521,6 +521,60 @@ func ruleC10(w *World) {
 			w.check(bad == "", "C10.R3", "qual/NextTimeout/lock-step", ts.methods["NextTimeout"].Pos(), fmt.Sprintf("phase transitions are a function of the phase alone (%d phases) and only Start/NextTimeout/End move the phase", n), bad)
 		}
 	}
+	// R3 (Joint-Feldman End): End is refused until both timeouts have elapsed, and a refused call leaves no trace: every
+	// effect End can have (a store into an instance, a callback to the processor) lies on a path where both timeout
+	// flags of an instance were found set (the instances move in lock-step, lemma above)
+	if je := w.method(d.joint, "End"); je != nil {
+		sites := w.deepSites(je, func(ins ssa.Instruction) bool {
+			switch x := ins.(type) {
+			case *ssa.Store:
+				if f := addrField(x.Addr); f != nil {
+					_, isA := x.Addr.(*ssa.FieldAddr)
+					if isA {
+						if al, ok := x.Addr.(*ssa.FieldAddr).X.(*ssa.Alloc); ok && al != nil {
+							return false // a local object under construction
+						}
+					}
+					return f.Name() != ""
+				}
+			case ssa.CallInstruction:
+				if x.Common().IsInvoke() {
+					switch x.Common().Method.Name() {
+					case "Disqualify", "FlagMisbehavior", "Broadcast", "PrivateSend":
+						return true
+					}
+				}
+			}
+			return false
+		}, 3)
+		nEff := 0
+		for _, st := range sites {
+			fs := w.deepFacts(st)
+			sh, cp := false, false
+			for _, f := range fs {
+				if strings.HasSuffix(f, "sharesTimeout == true") {
+					sh = true
+				}
+				if strings.HasSuffix(f, "complaintsTimeout == true") {
+					cp = true
+				}
+			}
+			what := "store"
+			if c, ok := st.ins.(ssa.CallInstruction); ok {
+				what = c.Common().Method.Name()
+			} else if s2, ok := st.ins.(*ssa.Store); ok {
+				what = "store to " + addrField(s2.Addr).Name()
+				if addrField(s2.Addr).Name() == "jointRunning" {
+					continue // clearing the running flag is what End is for; its own guard is rule R1
+				}
+			}
+			nEff++
+			w.check(sh && cp, "C10.R3", fmt.Sprintf("joint/End/effect-after-timeouts:%s#%d", what, nEff), st.ins.Pos(), "effect only after both timeouts were found set", "Joint-Feldman End can perform `"+what+"` on a path where the two timeouts have not been checked: a premature End is refused with the state-transition error but has already changed the instance (a dealer disqualified for a complaint that would still have been answered)", fs...)
+		}
+		if nEff == 0 {
+			w.undecided("C10.R3", "joint/End/effects", je.Pos(), "no effect found in Joint-Feldman End (anchors moved?)")
+		}
+	}
 	// Joint-Feldman: its own running flag guards every delegation; per-path rule on the SSA
 	w.ruleJointGuards("C10.R1", d)
 	// R5 range before index / narrowing for the int parameters of the API methods
@@ -964,6 +1018,31 @@ func ruleC08(w *World) {
 	w.ruleVerdictOwnership("C08.R5", d)
 	w.ruleEndGuards("C08.R6", d)
 	w.ruleDisqualificationRules("C08.R7", d)
+	// R11 the dealer answers a complaint once: every broadcast reachable from the complaint intake happens on a path
+	// where the complaint was found to be new (failed lookup of the record, or its received flag still false) — a
+	// duplicated complaint must not make the dealer broadcast a second answer, for which honest receivers flag it
+	w.floor("C08.R11", 1)
+	if cf := w.method(d.qual, d.role(d.qual, "complaint")); cf != nil {
+		sites := w.deepSites(cf, func(ins ssa.Instruction) bool {
+			c, ok := ins.(ssa.CallInstruction)
+			return ok && c.Common().IsInvoke() && c.Common().Method.Name() == "Broadcast"
+		}, 3)
+		if len(sites) == 0 {
+			w.undecided("C08.R11", "qual/answer-once", cf.Pos(), "no broadcast reachable from the complaint intake (dealer's answer not found)")
+		}
+		for i, st := range sites {
+			fs := w.deepFacts(st)
+			okk := false
+			for _, f := range fs {
+				if strings.HasSuffix(f, "]#1 == false") || strings.HasSuffix(f, "."+d.m.recvFld.Name()+" == false") {
+					okk = true
+				}
+			}
+			w.check(okk, "C08.R11", fmt.Sprintf("qual/answer-once#%d", i), st.ins.Pos(), "the answer is broadcast only for a complaint found to be new", "the dealer's answer can be broadcast for a complaint that was already received (no `record is new` / `not yet received` test on the way): a repeated complaint makes an honest dealer answer twice and every honest receiver flags it", fs...)
+		}
+	} else {
+		w.undecided("C08.R11", "anchor:complaint-intake", token.NoPos, "unresolved anchor: complaint intake")
+	}
 	// R9 duplicated answers are flagged, not acted upon (same rule as C07.R8)
 	w.floor("C08.R9", 1)
 	qualFns := map[string]*ssa.Function{}
@@ -1205,6 +1284,10 @@ func ruleC07(w *World) {
 	}
 	w.floor("C07.R9", 4)
 	w.ruleJointDispatch("C07.R9", d)
+	// R11: the disqualification rules every honest participant applies have the documented, order-independent shape
+	// (missing vector at the first timeout, len(complaints) > t at the second, unanswered complaint at End, …) = C08.R7
+	w.floor("C07.R11", 10)
+	w.ruleDisqualificationRules("C07.R11", d)
 	sys := d.systems(w)
 	// R4 monotone verdict
 	{
